@@ -428,6 +428,28 @@ def r_pure(A, ctx, scope, rule="R-PURE"):
                             ctx.ob(rule, f"{f.fq}::{t.value.id}[...]", rebound,
                                    what=f"{f.qualname} writes into its input `{t.value.id}`",
                                    loc=loc(f, st))
+    # in-place methods called on the (validated, possibly un-copied) inputs
+    from ..flow import INPLACE_METHODS
+    for f in seen:
+        env = flow.env.get(f, {})
+        for c in ast.walk(f.node):
+            if isinstance(c, ast.Call) and isinstance(c.func, ast.Attribute) and c.func.attr in INPLACE_METHODS:
+                base = c.func.value
+                while isinstance(base, (ast.Attribute, ast.Subscript)):
+                    base = base.value
+                if isinstance(base, ast.Name):
+                    roles = env.get(base.id, set())
+                    derived = set()
+                    for st in ast.walk(f.node):
+                        if isinstance(st, ast.Assign) and any(isinstance(t, ast.Name) and t.id == base.id for t in st.targets):
+                            for nm in names_in(st.value):
+                                derived |= env.get(nm, set())
+                    if (roles | derived) & PROTECTED:
+                        n += 1
+                        ctx.ob(rule, f"{f.fq}::{norm_src(c)[:50]}", False,
+                               what=f"`{norm_src(c)[:50]}` modifies in place an array that is (or may "
+                                    "alias, when validation does not copy) the caller's data",
+                               loc=loc(f, c))
     ctx.extra["functions_analysed"] = len(seen)
     ctx.floor(rule, n, scope.get("floor", 25))
     ctx.floor(rule + "/functions", len(seen), 150)
